@@ -172,7 +172,7 @@ def gen_pos_case(rng, idx):
     return {'kind': 'pos', 'top': top, 'files': files, 'exp_file': exp_file, 'exp_line': exp_line, 'via_file': via_file, 'dir': 'p%d' % idx, 'where': where}
 
 
-FAIL_KINDS = ['missing', 'enotdir', 'dangling', 'directory', 'directory-slash', 'dirlink', 'dirlink2', 'loop', 'deep11', 'deep12', 'empty-name', 'no-args', 'two-args', 'broken-file', 'open-string-file', 'missing-in-sp']
+FAIL_KINDS = ['beside-includer', 'beside-includer-file', 'missing', 'enotdir', 'dangling', 'directory', 'directory-slash', 'dirlink', 'dirlink2', 'loop', 'deep11', 'deep12', 'empty-name', 'no-args', 'two-args', 'broken-file', 'open-string-file', 'missing-in-sp']
 
 
 def gen_fail_case(rng, idx):
@@ -199,6 +199,7 @@ def gen(tier, seed):
 
 def fail_text(kind):
     return {
+        'beside-includer': 'include("sub/wrap.conf")\n', 'beside-includer-file': 'include("sub/wrap.conf")\n',
         'missing': 'include("nosuch.conf")\n', 'enotdir': 'include("good.conf/x")\n', 'dangling': 'include("dangling.conf")\n',
         'directory': 'include("adir")\n', 'directory-slash': 'include("adir/")\n', 'dirlink': 'include("adirlink")\n', 'dirlink2': 'include("./sub/../adirlink2")\n', 'loop': 'include("loop1")\n', 'deep11': 'include("d11_0.conf")\n', 'deep12': 'include("d12_0.conf")\n',
         'empty-name': 'include("")\n', 'no-args': 'include()\n', 'two-args': 'include("good.conf", "good.conf")\n',
@@ -255,6 +256,9 @@ def script(spec):
         L.append('mkfile %s %s' % (hx(d + '/broken.conf'), hx('i = 1\ni = = 2\n')))
         L.append('mkfile %s %s' % (hx(d + '/openstr.conf'), hx('s = "never closed\n')))
         L.append('mkdir %s' % hx(d + '/adir'))
+        # a file that exists only NEXT TO an included file (in sub/), not where relative names are looked up: including it by its bare name fails
+        L.append('mkfile %s %s' % (hx(d + '/sub/wrap.conf'), hx('i = 7\ninclude("beside.conf")\n')))
+        L.append('mkfile %s %s' % (hx(d + '/sub/beside.conf'), hx('i = 8\n')))
         L.append('symlink %s %s' % (hx('nowhere'), hx(d + '/dangling.conf')))
         L.append('symlink %s %s' % (hx('adir'), hx(d + '/adirlink')))           # a symlink to a directory
         L.append('symlink %s %s' % (hx('adirlink'), hx(d + '/adirlink2')))      # ... and a symlink to that
@@ -279,7 +283,10 @@ def script(spec):
         L.append('mon')
         for k in spec['seq']:
             L.append('note fail')
-            L.append('parse_buf 0 %s' % hx(fail_text(k)))
+            if k == 'beside-includer-file' and not spec['sp']:
+                L.append('parse_file 0 %s' % hx('sub/wrap.conf'))        # (logged as parse_file; judged like the others)
+            else:
+                L.append('parse_buf 0 %s' % hx(fail_text(k)))
             L.append('mon')
         L.append('note good-same')
         L.append('parse_buf 0 %s' % hx('include("good.conf")\n'))
@@ -362,7 +369,7 @@ def judge(spec, events, death):
         fi = 0
         v.nontrivial = True
         for g in groups:
-            r = [e for e in g[1:] if e.get('ev') == 'r' and e.get('op') == 'parse_buf']
+            r = [e for e in g[1:] if e.get('ev') == 'r' and e.get('op') in ('parse_buf', 'parse_file')]
             m = [e for e in g[1:] if e.get('ev') == 'mon']
             dg = [e for e in g[1:] if e.get('ev') == 'diag']
             if g[0] == 'fail':
